@@ -37,8 +37,9 @@ fn tfk_stub(_k: &[u8; 32], _s: Option<&[u8]>) -> crate::Id {
 }
 
 fn scenario(n: usize) {
-    let seqs: [i64; 3] = kani::any();
-    let vals: [u8; 3] = kani::any();
+    // scalar draws (one trace assignment each: Kani's playback extraction skips whole-array draws)
+    let seqs: [i64; 3] = [kani::any(), kani::any(), kani::any()];
+    let vals: [u8; 3] = [kani::any(), kani::any(), kani::any()];
     unsafe {
         N.v = n;
         SEQS.v = seqs;
